@@ -51,6 +51,17 @@ func getBase(options multiTag, base int) (int, error) {
 	return base, err
 }
 
+// formatBase returns the base used to format an integer. strconv panics when
+// formatting in a base outside 2..36, while base 0 (detect the base from the
+// prefix) is valid for parsing; such bases are formatted in decimal.
+func formatBase(base int) int {
+	if base < 2 || base > 36 {
+		return 10
+	}
+
+	return base
+}
+
 func convertMarshal(val reflect.Value) (bool, string, error) {
 	// Check first for the Marshaler interface
 	if val.IsValid() && val.Type().NumMethod() > 0 && val.CanInterface() {
@@ -96,7 +107,7 @@ func convertToString(val reflect.Value, options multiTag) (string, error) {
 			return "", err
 		}
 
-		return strconv.FormatInt(val.Int(), base), nil
+		return strconv.FormatInt(val.Int(), formatBase(base)), nil
 	case reflect.Uint, reflect.Uint8, reflect.Uint16, reflect.Uint32, reflect.Uint64:
 		base, err := getBase(options, 10)
 
@@ -104,7 +115,7 @@ func convertToString(val reflect.Value, options multiTag) (string, error) {
 			return "", err
 		}
 
-		return strconv.FormatUint(val.Uint(), base), nil
+		return strconv.FormatUint(val.Uint(), formatBase(base)), nil
 	case reflect.Float32, reflect.Float64:
 		return strconv.FormatFloat(val.Float(), 'g', -1, tp.Bits()), nil
 	case reflect.Slice:
